@@ -2,6 +2,7 @@ import JmesVerif.Lemmas.ParserSound
 import JmesVerif.Lemmas.ParserComplete
 import JmesVerif.Lemmas.ParserFuel
 import JmesVerif.Lemmas.Lexer
+import JmesVerif.Lemmas.AbnfSound
 /-!
 # C03 — compile accepts exactly the JMESPath language
 
@@ -138,6 +139,15 @@ theorem C03_complete (e : Expr) (hl : e.Legal 0) (ts : List PT) (hy : tk ts = e.
   refine ⟨a, hres, ?_⟩
   exact (T1_parseTokens ts e a hres).2.2
 
+/-- **Against the published ABNF (one direction).** `Spec/Abnf.lean` transcribes the specification's ABNF, production by
+production, as an (ambiguous) context-free grammar over tokens.  Whatever the parser accepts without using one of the three
+listed deviations (F3 a call applied to a parenthesised field, F4 a multi-select list as a projection's bracket right-hand
+side, F5 `&e` outside a function argument) is a sentence of that grammar — so the deviations counted by `GrammarCheck` are
+the ONLY way a non-sentence can compile. -/
+theorem C03_abnf_sound (ts : List PT) (e : Expr) (a : Ast) (h : parseTokens ts = .ok (e, a))
+    (hd : (GrammarCheck.exprDev false e).languageClean) : Abnf.Expression e.toks :=
+  abnf_sound e 0 (C03_sound ts e a h).2.1 hd
+
 /-- the model never rejects for lack of fuel -/
 theorem C03_no_fuel_tokens (ts : List PT) : parseTokens ts ≠ .error .fuel := parseTokens_no_fuel ts
 
@@ -205,6 +215,7 @@ end JmesVerif
 #print axioms JmesVerif.C03_complete
 #print axioms JmesVerif.C03_language
 #print axioms JmesVerif.C03_no_fuel_tokens
+#print axioms JmesVerif.C03_abnf_sound
 #print axioms JmesVerif.C03_number_tokens_in_range
 #print axioms JmesVerif.C03_multiselect_nonempty
 #print axioms JmesVerif.T1_expr
